@@ -1222,11 +1222,63 @@ func (x *Exec) applyEffects(st *State, eff *Effects) {
 	}
 }
 
-func (x *Exec) loopClauses(fn *ssa.Function, fc *FuncContract, li *loopInfo) []Clause {
-	if fc == nil {
-		return nil
+// applyCallEffects: like applyEffects, but under fresh-frames a component the callee only writes in
+// objects it allocated itself keeps its contents at every reference that existed before the call.
+func (x *Exec) applyCallEffects(st *State, eff *Effects) {
+	if eff.all || x.fc == nil || !x.fc.FreshFrames {
+		x.applyEffects(st, eff)
+		return
 	}
-	return fc.LoopInv[li.ordinal]
+	c := x.c
+	var soft, hard []string
+	for p := range eff.prefixes {
+		if eff.soft[p] {
+			soft = append(soft, p)
+		} else {
+			hard = append(hard, p)
+		}
+	}
+	sort.Strings(soft)
+	sort.Strings(hard)
+	top := st.allocTop
+	for _, p := range soft {
+		var keys []string
+		for k := range st.heap {
+			if keyMatches(k, p) {
+				keys = append(keys, k)
+			}
+		}
+		sort.Strings(keys)
+		olds := map[string]*Term{}
+		for _, k := range keys {
+			olds[k] = st.heap[k]
+		}
+		x.havocKeyPrefix(st, p)
+		for _, k := range keys {
+			nv := st.heap[k]
+			if nv == olds[k] || !strings.HasPrefix(string(nv.sort), "(Array Int ") {
+				continue
+			}
+			r := c.BoundVar("r", SInt)
+			body := c.Implies(c.Lt(r, top), c.Eq(c.Select(nv, r), c.Select(olds[k], r)))
+			x.hyps = append(x.hyps, c.Forall([]*Term{r}, body, [][]*Term{{c.Select(nv, r)}}))
+		}
+	}
+	for _, p := range hard {
+		x.havocKeyPrefix(st, p)
+	}
+}
+
+func (x *Exec) loopClauses(fn *ssa.Function, fc *FuncContract, li *loopInfo) []Clause {
+	var out []Clause
+	if fc != nil {
+		out = append(out, fc.LoopInv[li.ordinal]...)
+	}
+	if fn != x.fn && x.fc != nil && x.fc.InlineLoopInv != nil {
+		// the function under verification adds invariants to the loops of the callees it inlines
+		out = append(out, x.fc.InlineLoopInv[fmt.Sprintf("%s#%d", lastName(funcKey(fn)), li.ordinal)]...)
+	}
+	return out
 }
 
 func (x *Exec) checkInvariant(fn *ssa.Function, fc *FuncContract, li *loopInfo, st *State, iterSt *State, kind string) {
@@ -1489,6 +1541,11 @@ func (x *Exec) typeID(t types.Type) *Term {
 	id, ok := x.typeIDs[k]
 	if !ok {
 		id = int64(len(x.typeIDs) + 1)
+		if _, isPtr := t.Underlying().(*types.Pointer); isPtr && x.fc != nil && x.fc.FreshFrames {
+			// under fresh-frames the identifiers of pointer types start at ptrTagBase, so that "the
+			// dynamic type is a pointer type" is a comparison (see rangeFacts)
+			id += ptrTagBase
+		}
 		x.typeIDs[k] = id
 	}
 	return x.c.Int(id)
